@@ -204,9 +204,22 @@ def lit(n):
     return str(n) if n >= 0 else f"(0-{-n})"
 
 
+# ways of holding a small integer in big representation; run() picks the first one that does so on this tree
+# (which operators normalise their result is an implementation detail, not part of the property)
+BIG_FORMS = ["({} // 1)", "(2^64 - 2^64 + {})", "({} << 0)", "({} * 2^64 // 2^64)"]
+BIG_FORM = [BIG_FORMS[0]]
+
+
+def choose_big_form(ctx):
+    res = common.run_prog([f"is_big({f.format('1')})" for f in BIG_FORMS])
+    ok_forms = [f for f, r in zip(BIG_FORMS, res) if r.get("status") == "ok" and r.get("val") == "I1"]
+    BIG_FORM[0] = ok_forms[0] if ok_forms else BIG_FORMS[0]
+    ctx.coverage["big_representation_form"] = BIG_FORM[0] if ok_forms else "none of " + ", ".join(BIG_FORMS) + " is held big on this tree: J tokens repeat the machine-word cases"
+
+
 def render_scalar(s):
     if s[0] == "J":
-        return f"({lit(int(s[1:]))} // 1)"        # div_floor always answers in big representation
+        return BIG_FORM[0].format(lit(int(s[1:])))
     return render_num(parse_canon(s))
 
 
@@ -762,12 +775,16 @@ def check_pool(ctx, P):
             badp.append((s, observed(r)))
     ints = [s for s in P if s[0] in "IJ"]
     rep = common.run_prog([f"is_big({render_scalar(s)})" for s in ints])
+    # how an integer is held is not an observable of the property: a token that is not in the intended
+    # representation only lowers coverage, and is recorded as such
+    offrep = []
     for s, r in zip(ints, rep):
         big = s[0] == "J" or not (-2 ** 63 <= int(s[1:]) < 2 ** 63)
         if r.get("status") == "ok" and r.get("val") != ("I1" if big else "I0"):     # is_big absent: representation unchecked
-            badp.append((s, "representation: is_big = " + str(r.get("val"))))
+            offrep.append(s)
+    ctx.coverage["pool_tokens_not_in_intended_representation"] = offrep[:20]
     if badp:
-        ctx.violation("correspondence", {"what": "pool rendering: a number's source form does not evaluate to the intended value / representation "
+        ctx.violation("correspondence", {"what": "pool rendering: a number's source form does not evaluate to the intended value "
                                                  "(the generator or bits_to_float / literal / `/` / `// 1` changed meaning)", "pool_mismatches": badp[:10]}, found=False)
     return not badp
 
@@ -780,6 +797,7 @@ def rem_fix_pending():
 
 def run(ctx):
     runner = common.standard_prelude(ctx)
+    choose_big_form(ctx)
     P, cases = gen_cases(ctx)
     check_pool(ctx, P)
     pending = rem_fix_pending()
@@ -819,6 +837,7 @@ def run(ctx):
 
 def replay(ctx, rep):
     runner = common.standard_prelude(ctx)
+    choose_big_form(ctx)
     c = dict(rep["case"])
     bad, _ = evaluate(ctx, [c], runner, rem_fix_pending())
     report(ctx, bad)
